@@ -28,9 +28,10 @@ func init() {
 func c07NaNUpstream(k *fw.K, src, target []int, via string) {
 	x := Shuffled(k.Rng, Unique(k.Rng, src, 0.2, 2))
 	g := ref.Full(target, 2)
-	nanAt := k.Rng.Intn(len(g.Data)) // anywhere, not only at the end
-	g.Data[nanAt] = math.NaN()
-	k.Case = map[string]any{"op": via, "source": src, "target": target, "upstream": "all 2 except a NaN at flat position " + itoa(nanAt)}
+	nanAt := k.Rng.Intn(len(g.Data))                                           // anywhere, not only at the end
+	special := []float64{math.NaN(), math.Inf(1), math.Inf(-1)}[k.Rng.Intn(3)] // an infinity among the copies makes the sum (and the mean) that infinity
+	g.Data[nanAt] = special
+	k.Case = map[string]any{"op": via, "source": src, "target": target, "upstream": fmt.Sprintf("all 2 except %v at flat position %d", special, nanAt)}
 	k.Key("nan-upstream/%s/%s/%s", via, shapeKey(src), shapeKey(target))
 	k.Count("cases_with_a_NaN_in_an_otherwise_uniform_upstream_gradient", 1)
 	in := ref.Instr{Op: "broadcast", Shape: target}
@@ -62,8 +63,8 @@ func c07NaNUpstream(k *fw.K, src, target []int, via string) {
 		return
 	}
 	for i := range got.Data {
-		if math.IsNaN(got.Data[i]) != math.IsNaN(want.Data[i]) {
-			k.Failf("%s %v -> %v, upstream gradient uniform except a NaN at flat position %d: operand element %d is %v, the sum over its copies is %v", via, src, target, nanAt, i, got.Data[i], want.Data[i])
+		if math.IsNaN(got.Data[i]) != math.IsNaN(want.Data[i]) || math.IsInf(got.Data[i], 1) != math.IsInf(want.Data[i], 1) || math.IsInf(got.Data[i], -1) != math.IsInf(want.Data[i], -1) {
+			k.Failf("%s %v -> %v, upstream gradient uniform except %v at flat position %d: operand element %d is %v, the sum over its copies is %v", via, src, target, special, nanAt, i, got.Data[i], want.Data[i])
 			return
 		}
 	}
